@@ -221,9 +221,18 @@ func prop(c harness.Case) harness.Result {
 
 const rule = "G1/G2/G3 inputs and sink templates (hostile payload placed where text reaches an attribute or element: text, code, info string, destinations, titles, image descriptions, autolinks, list starts) x IgnoreRaw=true with 3 soft-break behaviours, plus IgnoreRaw=false when the tree has no raw-HTML node; oracle = strict output grammar (O2), fixed element/attribute vocabulary, nesting, well-formed character references against the WHATWG name table, start-tag census equal to the one the tree predicts, agreement with x/net/html's tokenizer; non-trivial = input contains one of < > & \" ' and the output contains markup or escapes"
 
-func TestProperty(t *testing.T) {
-	harness.Run(t, harness.Plan{Prop: "C07", Suppress: findings.Suppressor("C07"), Checks: []harness.Check{
+func plan() harness.Plan {
+		return harness.Plan{Prop: "C07", Suppress: findings.Suppressor("C07"), Checks: []harness.Check{
 		{Name: "safe_output", Quick: 50000, Thorough: 700000, Gen: func(t *rapid.T) harness.Case { return harness.Case{In: gen.DocOrSink().Draw(t, "in")} }, Prop: prop, Rule: rule},
 		{Name: "sinks", Quick: 50000, Thorough: 700000, Gen: func(t *rapid.T) harness.Case { return harness.Case{In: gen.Sink().Draw(t, "in")} }, Prop: prop, Rule: "sink templates only: " + rule},
-	}})
+	}}
+}
+
+func TestProperty(t *testing.T) {
+	harness.Run(t, plan())
+}
+
+// FuzzProperty is the native coverage-guided fuzz entry (thorough tier).
+func FuzzProperty(f *testing.F) {
+	harness.FuzzTarget(f, plan(), "safe_output", gen.SeedCorpus())
 }
